@@ -21,7 +21,9 @@ RULE = (
     "strftime/dump, zone and representation conversions, getters and "
     "properties (incl. the linked time_zone / start_point / end_point / "
     "duration objects, which enter the pools), add_months, add_truncated, "
-    "iteration, membership and neighbour queries, indexing - on operands "
+    "iteration, membership and neighbour queries, indexing, augmented "
+    "assignment (+=, -=, *=), construction of recurrences from pooled points "
+    "and durations - on operands "
     "drawn from the pools; results enter the pools. Oracle: every value is "
     "snapshotted when first seen (all slots recursively, str result or "
     "exception type, hash) and after EVERY step every value ever seen is "
@@ -338,6 +340,48 @@ class Interp:
         if op == "rec_shift":
             r, d = Rc(a), Du(b)
             return [r + d, d + r, r - d][n % 3]
+        if op == "iop":
+            # augmented assignment must rebind, never update in place
+            import operator
+            which = n % 7
+            if which == 0:
+                return operator.iadd(P(a), Du(b))
+            if which == 1:
+                return operator.isub(P(a), Du(b))
+            if which == 2:
+                return operator.iadd(Du(a), Du(b))
+            if which == 3:
+                return operator.isub(Du(a), Du(b))
+            if which == 4:
+                return operator.imul(Du(a), b % 7 - 3)
+            if which == 5:
+                return operator.iadd(Rc(a), Du(b))
+            return operator.isub(Rc(a), Du(b))
+        if op == "rec_ctor":
+            # a recurrence built from values already in the pools
+            which = n % 8
+            reps = [None, 1, 2, 3, 5][b % 5]
+            if which in (0, 6, 7):
+                x, y = P(a), P(b)
+                if y < x:       # start / second point in timeline order
+                    x, y = y, x
+                return D.TimeRecurrence(repetitions=reps, start_point=x,
+                                        end_point=y)
+            if which == 1:
+                return D.TimeRecurrence(repetitions=reps, start_point=P(a),
+                                        duration=Du(b))
+            if which == 2:
+                return D.TimeRecurrence(repetitions=reps, duration=Du(b),
+                                        end_point=P(a))
+            if which == 3:
+                return D.TimeRecurrence(repetitions=reps, start_point=P(a),
+                                        duration=Du(b), max_point=P(b))
+            if which == 4:
+                return D.TimeRecurrence(repetitions=reps, duration=Du(b),
+                                        end_point=P(a), min_point=P(b))
+            return D.TimeRecurrence(repetitions=reps, start_point=P(a),
+                                    end_point=P(a + 1), min_point=P(b),
+                                    max_point=P(b + 1))
         if op == "rec_misc":
             r = Rc(a)
             return [hash(r), str(r), repr(r), r == Rc(b), r.start_point,
@@ -352,7 +396,7 @@ OPS = ["tp+dur", "dur+tp", "tp-dur", "tp-tp", "tp+tp", "trunc+full", "tpcmp/lt",
        "tp_tzoffset", "tp_add_months", "tp_add_truncated", "dur+dur", "dur-dur",
        "dur*n", "dur//n", "dur_abs", "durcmp/lt", "durcmp/eq", "durcmp/ge",
        "dur_misc", "tz_misc", "rec_iter", "rec_query", "rec_member_query",
-       "rec_shift", "rec_misc"]
+       "rec_shift", "rec_misc", "iop", "rec_ctor"]
 
 
 def check_case(case):
@@ -433,9 +477,11 @@ def make_machine(ctx):
         def start(self, mode, data):
             cm = R.canon(mode)
             self._do({"do": "mode", "mode": mode})
-            for _ in range(3):
-                self._do({"do": "new", "what": "tp", "kw": data.draw(
-                    G.st_point_kw(cm, years=YEARS))})
+            for k in range(3):
+                kw = data.draw(G.st_point_kw(cm, years=YEARS))
+                if k == 1:
+                    kw["dump_format"] = data.draw(st.sampled_from(FORMATS[3:]))
+                self._do({"do": "new", "what": "tp", "kw": kw})
             self._do({"do": "new", "what": "tp", "kw": data.draw(st_trunc_kw())})
             self._do({"do": "new", "what": "dur", "kw": data.draw(
                 G.st_exact_duration_kw(max_days=400, signs="any"))})
@@ -464,6 +510,9 @@ def make_machine(ctx):
             if what == "tp":
                 step = {"do": "new", "what": "tp",
                         "kw": data.draw(G.st_point_kw(cm, years=YEARS))}
+                if data.draw(st.integers(0, 3)) == 0:
+                    step["kw"]["dump_format"] = data.draw(
+                        st.sampled_from(FORMATS[3:]))
             elif what == "tp24":
                 step = {"do": "new", "what": "tp", "kw": data.draw(
                     G.st_point_kw(cm, years=YEARS, forms=("24",),
